@@ -167,6 +167,39 @@ def e2e_part(chk, tier, E, prog, root, fails):
                     fails.append({"why": "a package outside GOGARBLE has obfuscated positions", "detail": {"GOGARBLE": gg, "package": ip}, "key": "out-of-scope-positions"})
 
 
+def chain_module(chk, tier, E, fails):
+    """a plain package that uses fields and methods of an obfuscated package's types WITHOUT importing it (it gets them
+    through another plain package): every file of a plain package still has to be rewritten"""
+    mod = "gv.test/chain"
+    files = {"go.mod": "module %s\n\ngo 1.26\n" % mod,
+             "model/m.go": "package model\n\ntype Product struct {\n\tLabelText string\n\tCount     int\n\tInner     Detail\n}\n\ntype Detail struct{ NoteText string }\n\nfunc (p *Product) Describe() string { return p.LabelText + \"/\" + p.Inner.NoteText }\n\nfunc New() *Product { return &Product{LabelText: \"label\", Count: 3, Inner: Detail{NoteText: \"note\"}} }\n",
+             "store/s.go": "package store\n\nimport \"%s/model\"\n\ntype Box struct{ P *model.Product }\n\nfunc Load() *model.Product { return model.New() }\n\nfunc NewBox() Box { return Box{P: model.New()} }\n" % mod,
+             "report/r.go": "package report\n\nimport (\n\t\"fmt\"\n\t\"%s/store\"\n)\n\nfunc Render() string {\n\tp := store.Load()\n\tp.Count++\n\tb := store.NewBox()\n\treturn fmt.Sprint(p.LabelText, p.Count, p.Describe(), b.P.Inner.NoteText, len(b.P.LabelText))\n}\n" % mod,
+             "report/plain.go": "package report\n\nfunc Untouched() int { return 7 }\n",
+             "main.go": "package main\n\nimport (\n\t\"fmt\"\n\t\"%s/report\"\n)\n\nfunc main() { fmt.Println(report.Render(), report.Untouched()) }\n" % mod}
+    root = E.write_module("chain", files)
+    pb = E.run_go(["build", "-trimpath", "-o", "plain", "."], root)
+    if pb.returncode != 0:
+        chk.notes.append("chain module does not build: " + pb.stderr[-300:]); return
+    _, want, _ = E.run_bin(os.path.join(root, "plain"))
+    subsets = [mod + "/model", mod + "/store", mod + "/model," + mod + "/report"] if tier == "quick" else \
+        [",".join(mod + "/" + x for x in c) for r in (1, 2, 3) for c in itertools.combinations(("model", "store", "report"), r)] + [mod]
+    st = chk.cov["streams"].setdefault("e2e:indirect-use-chain", {"builds": 0, "equal": 0})
+    for gg in subsets:
+        b = E.run_garble([], ["build", "-o", "garbled", "."], root, {"GOGARBLE": gg})
+        st["builds"] += 1
+        chk.count_cases(["chain|" + gg])
+        if b.returncode != 0:
+            fails.append({"why": "garble build fails for a GOGARBLE subset where a plain package reaches an obfuscated type through another plain package",
+                          "detail": {"GOGARBLE": gg, "stderr": b.stderr[-800:]}, "key": "indirect-use-build-fails"})
+            continue
+        _, got, _ = E.run_bin(os.path.join(root, "garbled"))
+        if got == want:
+            st["equal"] += 1
+        else:
+            fails.append({"why": "the mixed program behaves differently", "detail": {"GOGARBLE": gg, "want": want.decode()[-200:], "got": got.decode()[-200:]}, "key": "indirect-use-behaviour"})
+
+
 def main(tier, replay=None):
     chk = core.Check(PID, tier)
     core.build_tools()
@@ -181,6 +214,9 @@ def main(tier, replay=None):
             root = E.write_module("m%d" % i, prog.render())
             oracle_part(chk, tier, E, orc, prog, root, diffs, fails)
             e2e_part(chk, tier, E, prog, root, fails)
+            if not getattr(chk, '_chain_done', False):
+                chk._chain_done = True
+                chain_module(chk, tier, E, fails)
     finally:
         E.cleanup()
     if diffs:
